@@ -10,6 +10,7 @@ _MODULES = {
     "C06": ("scen_api", "C06"),
     "C07": ("scen_fs", "C07"),
     "C11": ("scen_fs", "C11"),
+    "C12": ("scen_c12", "C12"),
     "C13": ("scen_api", "C13"),
     "C14": ("scen_fs", "C14"),
     "C16": ("scen_c16", "C16"),
